@@ -1,6 +1,10 @@
 package compress
 
-import "io"
+import (
+	"io"
+	"net/http"
+	"strings"
+)
 
 type CompressReader interface {
 	io.ReadCloser
@@ -20,4 +24,12 @@ func NewCompressReader(body io.ReadCloser, contentEncoding string) CompressReade
 		return NewZstdReader(body)
 	}
 	return nil
+}
+
+// ContentEncoding returns the Content-Encoding field value of h. Several
+// Content-Encoding header lines form one list (RFC 9110, section 5.3): the
+// lines "gzip" and "gzip" are the coding list "gzip, gzip" (encoded twice),
+// not the single coding "gzip".
+func ContentEncoding(h http.Header) string {
+	return strings.Join(h.Values("Content-Encoding"), ", ")
 }
